@@ -39,7 +39,7 @@ func runC09(c *Ctx) {
 			vtaCrossCheck(c, p, "R09.1", name, fn, e, matchScope)
 		}
 	}
-	c.R.RequireMin("R09.1", "functions explored from Match+MatchFrom", total, 100)
+	c.R.RequireMin("R09.1", "functions explored from Match+MatchFrom", total, 40)
 	stringMethodRoots(c, p, "R09.2", core.V2Mod, matchScope)
-	c.R.RequireMin("R09.2", "formatting methods", c.R.Counts["R09.2:formatting_methods"], 3)
+	c.R.RequireMin("R09.2", "formatting methods", c.R.Counts["R09.2:formatting_methods"], 1)
 }
